@@ -1238,6 +1238,12 @@ func (ctx drawContext) drawLine(x1, y1, x2, y2, thickness pr.Fl, style pr.String
 			ctx.dst.State().Clip(false)
 
 			x := x1 - offset
+			if period := 4 * radius; period > 0 && offset > period {
+				// The wave starts where the line does, to keep its phase from one
+				// text box to the next, but it is clipped to this text box:
+				// skip the whole periods lying before it.
+				x = x1 - fl(math.Mod(float64(offset), float64(period)))
+			}
 			ctx.dst.MoveTo(x, y1)
 
 			for x < x2 {
